@@ -6,8 +6,12 @@ ENGINES = ["chain"]
 
 def run(tier, replay):
     return run_chain_check(PID, tier, replay,
-                           mc_quick=["mc/MC_Chain_utxo_q"], mc_thorough=["mc/MC_Chain_utxo"],
+                           mc_quick=["mc/MC_Chain_utxo_q", "mc/MC_Chain_reset_q"], mc_thorough=["mc/MC_Chain_utxo", "mc/MC_Chain_reset_q"],
                            sim_cfg="mc/MC_Chain_simemit", n_quick=120, n_thorough=1600,
-                           focus="UnspentIsReplay / IndexConsistent / SpentIdxInv; replay compares get_unspent of every commitment ever minted (with creation height and position round trip), leaf count, enumeration count, after every delivery; twin roots at the end",
-                           extra_sims=[("mc/MC_Chain_simemit_respend", 80, 800)],
+                           focus="UnspentIsReplay / IndexConsistent / SpentIdxInv / RewindInv (also across reset_chain_head and compaction); replay compares get_unspent of every commitment ever minted (with creation height and position round trip), leaf count, enumeration count, after every delivery; twin roots at the end",
+                           extra_sims=[("mc/MC_Chain_simemit_respend", 80, 800),
+                                       # operator resets (reset_chain_head to any stored header) and read-only rewind probes
+                                       ("mc/MC_Chain_simemit_reset", 40, 400),
+                                       # 85-block trunk, compaction, forks down to the horizon, probes at the horizon
+                                       ("mc/MC_Chain_simemit_compact", 8, 40)],
                            assumptions=["minted bodies: <=2 inputs from every commitment on any fork plus never-created ones, <=2 outputs incl. re-created commitments, value-balanced"])
